@@ -39,6 +39,10 @@ def run(tier, seed):
         c11.two_level(run, provenance=True)
     except ImportError:
         run.extra["multi_level"] = "not built yet"
+    # generic history fuzzer: live objects used again and again (wrap, query, rotate by 0, edit in place, assemble)
+    from .. import scenario
+    sc = scenario.run(rng, 20 if q else 200)
+    run.validate("scenario-assemblies", "Trace_Assembly", sc["assembly"], None, sigfn=ac.asm_sig, describe=ac.asm_describe)
     return run.finish("TLC: the fragment partition of the small world; I->S: products of assemblies over all geometries with various "
                       "ids/names: id, name, circular topology, comment naming vector and modules, one generated source feature per "
                       "retained fragment tiling the product and covering text found verbatim in the named plasmid; GenBank write + "
